@@ -143,6 +143,21 @@ RunResult run_mem(const Program &p, bool trace) {
             if (r != D->blks[bi].p) VIOL("C10", "C10:ref-return", "m_mem_ref did not return its argument");
             D->blks[bi].shadow++;
             sim::tr("mem_ref", bi, D->blks[bi].shadow);
+        } else if (n == "refmany") {
+            // very many simultaneous references to one block (past every narrow counter width), then all but the original ones dropped
+            if (bi < 0 || !D->blks[bi].p) continue;
+            long cnt = std::max(1L, op.arg(1));
+            void *ptr = D->blks[bi].p;
+            for (long i = 0; i < cnt; i++) if (m_mem_ref(ptr) != ptr) VIOL("C10", "C10:ref-return", "m_mem_ref did not return its argument");
+            D->blks[bi].shadow += cnt;
+            sim::tr("mem_refmany", bi, cnt);
+            sim::R->ctr.probe("mem_many_references");
+            check_all();
+            for (long i = 0; i < cnt; i++) {
+                D->blks[bi].shadow--;
+                m_mem_unref(ptr);
+                if ((i & 0x3fff) == 0 || i + 2 >= cnt) check_all();   // still alive and intact all the way down
+            }
         } else if (n == "unref") {
             if (bi < 0 || !D->blks[bi].p) continue;
             sim::tr("mem_unref", bi, D->blks[bi].shadow);
@@ -198,6 +213,7 @@ Program gen_mem(uint64_t seed, bool thorough) {
     int w[] = {30, 22, 30, 8, 6, 2};   // new ref unref unrefp size nulls
     for (int i = 0; i < nops; i++) {
         if (faults && r.chance(0.1)) p.add("D", "fail");
+        if (r.chance(0.004)) { static const long big[] = {255, 256, 65535, 65536, 70000}; p.add("D", "refmany", {(long)r.below(64), big[r.below(5)] + (long)r.below(3)}); continue; }
         switch (r.weighted(w, 6)) {
         case 0: {
             long size;
